@@ -46,4 +46,17 @@ typedef uint64_t elem_t;      /* opaque element token for templates that only mo
 		__CPROVER_assigns(v->size, __CPROVER_object_whole(v->data))                                            \
 		__CPROVER_ensures(v->size == n);
 
+/* erase(begin()+i) / insert(begin()+i, x) / push_back on tables of scalar elements: contract-only here, verified once against
+   their loop implementations (units shim_erase_at / shim_insert_at in contracts/SHIM.spec).  gh_e_<V> is the witness index
+   (declared and havocked by the generated harness): the contract says where the slot's value comes from. */
+#define GE_(V) (gh_e_##V < CAP ? gh_e_##V : 0)
+#define GE1_(V) (gh_e_##V + 1 < CAP ? gh_e_##V + 1 : 0)
+#define VEC_SHIMS_ERASE(V, T)                                                                                   \
+	void V##_erase_at(V *v, size_t i)                                                                           \
+		__CPROVER_requires(i < v->size && v->size <= CAP)                                                       \
+		__CPROVER_assigns(v->size, __CPROVER_object_whole(v->data))                                             \
+		__CPROVER_ensures(v->size == __CPROVER_old(v->size) - 1)                                                \
+		__CPROVER_ensures((gh_e_##V < i) ==> v->data[GE_(V)] == __CPROVER_old(v->data[GE_(V)]))                 \
+		__CPROVER_ensures((gh_e_##V >= i && gh_e_##V < v->size) ==> v->data[GE_(V)] == __CPROVER_old(v->data[GE1_(V)]));
+
 #endif
